@@ -20,6 +20,13 @@ from onnxscript.onnx_opset import opset18 as op
 from onnxscript.onnx_types import TensorType
 
 
+def _zero_point_as(zero_point, dtype: int):
+    """Zero point of the quantized dtype: python ints become constants, tensors are cast."""
+    if isinstance(zero_point, int):
+        return common.constant(zero_point, dtype=dtype)
+    return op.Cast(zero_point, to=dtype)
+
+
 @torch_op(
     (
         "quantized_decomposed::quantize_per_tensor",
@@ -30,14 +37,14 @@ from onnxscript.onnx_types import TensorType
 )
 def quantized_decomposed_quantize_per_tensor(
     input: TensorType,
-    scale: float,
-    zero_point: int,
-    quant_min: int,
-    quant_max: int,
+    scale,  # float, or Tensor in the .tensor / .tensor2 overloads
+    zero_point,  # int, or Tensor in the .tensor / .tensor2 overloads
+    quant_min,  # pylint: disable=unused-argument
+    quant_max,  # pylint: disable=unused-argument
     dtype: int,
 ) -> TensorType:
     # TODO(justinchuby): Use dtype when we use opset 21
-    return op.QuantizeLinear(input, scale, common.constant(zero_point, dtype=dtype))
+    return op.QuantizeLinear(input, scale, _zero_point_as(zero_point, dtype))
 
 
 @torch_op(
@@ -50,15 +57,15 @@ def quantized_decomposed_quantize_per_tensor(
 )
 def quantized_decomposed_dequantize_per_tensor(
     input: TensorType,
-    scale: float,
-    zero_point: int,
-    quant_min: int,
-    quant_max: int,
+    scale,  # float, or Tensor in the .tensor / .tensor2 overloads
+    zero_point,  # int, or Tensor in the .tensor / .tensor2 overloads
+    quant_min,  # pylint: disable=unused-argument
+    quant_max,  # pylint: disable=unused-argument
     dtype: int,
     out_dtype: int = -1,
 ) -> TensorType:
     # TODO(justinchuby): Use dtype when we use opset 21
-    dequantized = op.DequantizeLinear(input, scale, common.constant(zero_point, dtype=dtype))
+    dequantized = op.DequantizeLinear(input, scale, _zero_point_as(zero_point, dtype))
     if out_dtype in (-1, None):
         # out_dtype can be None as well
         return dequantized
